@@ -42,6 +42,8 @@ impl OrphanBroker {
         // that finishes verification between the two reads is seen as "no verdict yet" and "not
         // pending", and its orphans stay stranded until some later block arrives.
         let leader_is_pending_verify = self.is_pending_verify.contains(&leader_hash);
+        #[cfg(feature = "verif-hooks")]
+        crate::verif::gate("search_orphan_leader:between-reads", &leader_hash);
         let leader_status = self.shared.get_block_status(&leader_hash);
 
         if leader_status.eq(&BlockStatus::BLOCK_INVALID) {
